@@ -62,6 +62,7 @@ func MakeConfig(profile, tier string, seed int64, idx int) Config {
 		cfg.HandshakeDelayMax = 3
 		cfg.Hostile = idx%2 == 1
 		cfg.RetryDelay = []time.Duration{10 * time.Second, 60 * time.Second, 10 * time.Minute}[r.Intn(3)]
+		cfg.TransferTimeout = []time.Duration{3 * time.Second, 30 * time.Minute, 0}[r.Intn(3)]
 	case "lifecycle":
 		cfg.LiveConsumers = 2
 		cfg.HandshakeDelayMax = 4
